@@ -14,8 +14,10 @@ EXPLANATION = (
     "the reset. R4: every client entity that enters the server->client map carries the Replicated marker: each site creating a "
     "map entry inserts it on the same path, or - for entities merely reserved by a mapped component - the consumer of the entity's "
     "own change record ensures it; the server force-writes such a record for every new entity. R5: the two directions of the entity "
-    "map are mutated together with swapped key/value; a despawn removes the map entry it despawns.")
-NOT_DECIDED = "atomicity and ordering over histories; the hide+despawn leak (D11) and removal-then-despawn zombie (D12) live in the buffer/visibility state machines and are not detected"
+    "map are mutated together with swapped key/value; a despawn removes the map entry it despawns. R6: despawn / removal records are written for every client that "
+    "may hold the entity (filter accepts Visible; Gained may be left out only while the state-machine exploration establishes `Gained => not held`), change records "
+    "for every not-hidden client. R7: first-sight completeness (rules/first_sight.py).")
+NOT_DECIDED = "atomicity and ordering over histories; the removal-then-despawn zombie (D12) lives in the buffer state machines and is not detected (the visibility state machine is decided by C08.R5)"
 TRUSTED_BASE = ["bitflags iter_names yields named flags in declaration order", "the update channel is reliable and ordered (C01.R8)"]
 
 UPD = "bevy_replicon::server::replication_messages::updates::Updates"
@@ -384,16 +386,43 @@ def r5_paired_map(ctx):
     ctx.check(ok, "apply_despawn/removes-mapping-it-despawns", site_of(ad), "an entity is despawned on the client without its map entry having been removed")
 
 
+from flow import promoted_variant
+
+
 def r6_exact_filters(ctx):
     """Structural records are written for every client the entity is not hidden from: the filter on despawns, removals and
     changes is exactly the not-hidden test (nothing stricter), so a client that holds the entity always sees the change."""
     F = ctx.F
     from rules.C08 import visibility_guards, _client_items, DATA_WRITERS, VIS
-    EXACT = {"entity_visibility != Hidden", "is_visible", "is_none_or(is_visible)", "no visibility component", "state() != Hidden"}
+    import absint
+    BOTH = {"entity_visibility != Hidden", "is_visible", "is_none_or(is_visible)", "no visibility component", "state() != Hidden"}
+
+    def accepted(g):
+        if g[0] in BOTH:
+            return {"Visible", "Gained"}
+        if g[0].startswith("visibility == "):
+            return {g[0].split("== ")[1]}
+        if g[0] == "is_none_or(<visibility test>)" and isinstance(g[2], tuple):
+            cb = g[2][1]
+            for _, t in cb.calls():
+                dn = callee_decl(t)
+                if dn.startswith("core::cmp::PartialEq::") and len(t["args"]) == 2:
+                    for y in t["args"]:
+                        v = promoted_variant(cb, y, "Visibility")
+                        if v:
+                            return {v} if dn.endswith("::eq") else {"Visible", "Gained", "Hidden"} - {v}
+        return set()
+    # lemma from the exploration of the visibility state machine: `Gained` implies the client does not hold the entity
+    try:
+        _, stats = absint.explore(F)
+        held_gained = stats.get("gained-while-held")
+    except absint.Unmodelled as e:
+        held_gained = "not established (unmodelled construct: %s)" % e
     n = 0
+    ordinal = {}
     for fn_name in ("server::collect_despawns", "server::collect_removals", "server::collect_changes"):
         body = ctx.fn(fn_name)
-        for bb, t in body.calls():
+        for bb, t in sorted(body.calls(), key=lambda x: x[0]):
             d = callee_decl(t)
             if d not in DATA_WRITERS:
                 continue
@@ -403,11 +432,21 @@ def r6_exact_filters(ctx):
                 # lost-visibility despawns come from drain_lost(): no visibility filter applies
                 continue
             n += 1
-            key = "%s/%s@%s" % (short(fn_name), d.rsplit("::", 1)[-1], body.blocks[bb].term.get("span", "").rsplit(":", 1)[-1])
-            strict = [g[0] for g in gs if g[0] not in EXACT]
-            ctx.check(not strict, key, site_of(body, bb),
-                      "the record is written only under `%s`, which is stricter than `not hidden`: a client that holds the entity (e.g. visibility regained within the tick) "
-                      "does not receive this structural change" % strict, "filter is exactly the not-hidden test (%s)" % sorted({g[0] for g in gs}))
+            w = d.rsplit("::", 1)[-1]
+            ordinal[(fn_name, w)] = ordinal.get((fn_name, w), 0) + 1
+            key = "%s/%s#%d" % (short(fn_name), w, ordinal[(fn_name, w)])
+            acc = {"Visible", "Gained"}
+            for g in gs:
+                acc &= accepted(g)
+            about_held_data = w in ("add_removals", "add_despawn")
+            need = {"Visible"} if (about_held_data and not held_gained) else {"Visible", "Gained"}
+            missing = need - acc
+            ctx.check(not missing, key, site_of(body, bb),
+                      "the record is written only under `%s`, which leaves out %s: a client that holds the entity%s does not receive this structural change" % (
+                          sorted({g[0] for g in gs}), sorted(missing),
+                          " (visibility regained within the tick: %s)" % held_gained if held_gained and "Gained" in missing else ""),
+                      "filter %s accepts %s; needed %s%s" % (sorted({g[0] for g in gs}), sorted(acc), sorted(need),
+                                                             "" if need == {"Visible", "Gained"} else " (Gained implies the client does not hold the entity: established by the state-machine exploration)"))
             # no further non-visibility condition may suppress a despawn/removal record
             if d.endswith("add_removals") or d.endswith("add_despawn"):
                 other = []
